@@ -607,7 +607,10 @@ pub fn worker(ctx: &WorkerCtx) -> Report {
         };
         let mut out = run(false, None);
         let has_fw = ids.iter().any(|n| n.kind != Kind::N);
-        let valueish = |k: &str| k == "acyclic-value-wrong" || k == "value-outside-cycle-wrong" || k == "cycle-member-not-default";
+        // (also the wrong values downstream of an earlier cycle membership: in programs with
+        // firewalls about half of them turned out to be C01-F1 - an executor-level read above an
+        // unrepaired firewall - and not the cycle finding C06-F1 they used to be attributed to)
+        let valueish = |k: &str| k == "acyclic-value-wrong" || k == "value-outside-cycle-wrong" || k == "cycle-member-not-default" || k == "stale-after-earlier-cycle-membership";
         if has_fw && out.violations.iter().any(|v| valueish(&v.0)) {
             // counterfactual classification of C01-F1: do the untainted value
             // violations disappear when the user repairs the firewalls first?
